@@ -131,7 +131,7 @@ func init() {
 				}
 			}
 		}})
-	register(&Rule{ID: "LK-HOLD", Floor: 10,
+	register(&Rule{ID: "LK-HOLD", Floor: 8,
 		Doc: "every function of the server package is neutral with respect to repository holds: on every path, each successful RepoGet is followed by exactly one Done before the function returns (the error result of RepoGet is correlated with the hold), and no entry point leaks or double-releases a hold",
 		Run: func(c *core.Ctx) {
 			e := getLock(c)
@@ -195,7 +195,7 @@ func init() {
 			Doc: "static lockset restricted to the fields of " + v.what + ": all post-publication accesses of a field that is written after publication hold one common mutex, in every calling context",
 			Run: func(c *core.Ctx) { runLockGuard(c, v.prefix) }})
 	}
-	register(&Rule{ID: "LK-PAIR-CACHE", Floor: 5,
+	register(&Rule{ID: "LK-PAIR-CACHE", Floor: 3,
 		Doc: "the cache's mutex is released on every exit of every entry point that takes it, and no cache function's exits disagree on the mutexes they leave held",
 		Run: func(c *core.Ctx) {
 			e := getLock(c)
@@ -226,10 +226,10 @@ func init() {
 				}
 			}
 		}})
-	register(&Rule{ID: "LK-ATOMIC", Floor: 4,
+	register(&Rule{ID: "LK-ATOMIC", Floor: 2,
 		Doc: "in each store family's IndexInsert and IndexRemove the in-memory index is mutated, and (directory store) persisted, while the repository mutex is held, with no release of that mutex in between",
 		Run: runLockAtomic})
-	register(&Rule{ID: "LK-RMW", Floor: 2,
+	register(&Rule{ID: "LK-RMW", Floor: 1,
 		Doc: "a server function that reads the index (IndexGet), derives the current referrers response of a subject from it and later inserts a replacement (IndexInsert) performs a read-modify-write of shared state: one mutex must be held from the read to the write",
 		Run: runLockRMW})
 	register(&Rule{ID: "LK-CTA", Floor: 2,
@@ -570,11 +570,38 @@ func runLockAtomic(c *core.Ctx) {
 			bit := uint64(1) << uint(muClass)
 			// events: calls on the in-memory index (pointer receiver &x.index) and calls that persist
 			var mutations, saves, loads []ssa.CallInstruction
+			touchesIndex := func(f *ssa.Function) bool {
+				hit := false
+				an.Calls(f, func(call ssa.CallInstruction) {
+					for _, a := range call.Common().Args {
+						if fa, ok := a.(*ssa.FieldAddr); ok && isNamedType(an.Deref(fa.Type()), r.TypesPath, "Index") {
+							hit = true
+						}
+					}
+				})
+				return hit
+			}
+			if !touchesIndex(fn) {
+				// the method delegates to a helper of the repository type that does the work
+				an.Calls(fn, func(call ssa.CallInstruction) {
+					if sc := call.Common().StaticCallee(); sc != nil && sc.Signature.Recv() != nil && an.NamedOf(an.Deref(sc.Signature.Recv().Type())) == fam.Repo && len(sc.Blocks) > 0 && touchesIndex(sc) {
+						fn = sc
+					}
+				})
+			}
 			an.Calls(fn, func(call ssa.CallInstruction) {
 				if _, isDefer := call.(*ssa.Defer); isDefer {
 					return
 				}
 				cc := call.Common()
+				if cc.StaticCallee() == nil && !cc.IsInvoke() {
+					for _, a := range cc.Args {
+						if fa, ok := a.(*ssa.FieldAddr); ok && isNamedType(an.Deref(fa.Type()), r.TypesPath, "Index") {
+							mutations = append(mutations, call)
+							return
+						}
+					}
+				}
 				if sc := cc.StaticCallee(); sc != nil && sc.Signature.Recv() != nil && len(cc.Args) > 0 {
 					if fa, ok := cc.Args[0].(*ssa.FieldAddr); ok && isNamedType(an.Deref(fa.Type()), r.TypesPath, "Index") {
 						mutations = append(mutations, call)
@@ -678,6 +705,10 @@ func runLockRMW(c *core.Ctx) {
 			case r.IsAPI(call, "Repo", "IndexGet"):
 				gets = append(gets, call)
 			case r.IsAPI(call, "Repo", "IndexInsert"):
+				inserts = append(inserts, call)
+			case call.Common().StaticCallee() != nil && core.FuncPkgPath(call.Common().StaticCallee()) == c.P.Module && call.Common().StaticCallee() != fn &&
+				reachesAPI(c, r, call.Common().StaticCallee(), "Repo", "IndexInsert", 1, map[*ssa.Function]bool{fn: true}):
+				// the re-insert happens in a function this one calls
 				inserts = append(inserts, call)
 			case an.IsMethod(call, r.TypesPath, "Index", "GetByAnnotation"):
 				_, args := an.CallArgs(call)
@@ -1028,6 +1059,38 @@ func init() {
 				if fn == nil {
 					c.Unresolved(key, "RepoGet of %s not found", fam.Store.Obj().Name())
 					continue
+				}
+				// the lookup-or-create may live in a helper method of the store type that RepoGet calls
+				{
+					touches := func(f *ssa.Function) bool {
+						hit := false
+						an.Instrs(f, func(in ssa.Instruction) {
+							switch x := in.(type) {
+							case *ssa.MapUpdate:
+								if an.NamedOf(an.Deref(fieldOwnerType(x.Map))) == fam.Store {
+									hit = true
+								}
+							case ssa.CallInstruction:
+								if an.IsMethod(x, c.P.Module+"/internal/cache", "Cache", "Set") {
+									if recv, _ := an.CallArgs(x); an.NamedOf(an.Deref(fieldOwnerType(recv))) == fam.Store {
+										hit = true
+									}
+								}
+							}
+						})
+						return hit
+					}
+					if !touches(fn) {
+						var found *ssa.Function
+						an.Calls(fn, func(call ssa.CallInstruction) {
+							if sc := call.Common().StaticCallee(); sc != nil && sc.Signature.Recv() != nil && an.NamedOf(an.Deref(sc.Signature.Recv().Type())) == fam.Store && touches(sc) {
+								found = sc
+							}
+						})
+						if found != nil {
+							fn = found
+						}
+					}
 				}
 				st, ok := fam.Store.Underlying().(*types.Struct)
 				if !ok {
